@@ -970,7 +970,43 @@ func probeReencode() *failure {
 	return nil
 }
 
-func cmdSearch(seed uint64, n int) {
+// genExh enumerates every history of 0..L AddFullSampleToTrack calls on CreateMultiTrackFragment(1,[1,2]) with 2-valued
+// track/flags/duration/cto (size 1), with and without optimisation: all patterns of "which values are equal".
+func genExh(L int, emit func(sg *Seg)) {
+	flags := []uint32{0x1010000, 0x2000000}
+	durs := []uint32{10, 20}
+	ctos := []int32{0, 5}
+	var rec func(ops []Op, dts [3]uint64)
+	count := 0
+	rec = func(ops []Op, dts [3]uint64) {
+		for _, opt := range []bool{false, true} {
+			sg := &Seg{NTracks: 2, Trex: [][3]uint32{{7, 9, 0x10000}, {20, 1, 0x2000000}}, Styp: count%2 == 0, Opt: opt, SW: count%3 == 0, Dec: count % 4}
+			fr := Frag{Seq: 1, Multi: true, Tracks: []uint32{1, 2}, TrafX: [][]int{nil, nil}}
+			fr.Ops = append([]Op{}, ops...)
+			sg.Frags = []Frag{fr}
+			count++
+			emit(sg)
+		}
+		if len(ops) == L {
+			return
+		}
+		for tr := uint32(1); tr <= 2; tr++ {
+			for _, f := range flags {
+				for _, d := range durs {
+					for _, c := range ctos {
+						op := Op{K: "T", Tr: tr, Ss: []Smp{{F: f, D: d, S: 1, C: c}}, Dts: dts[tr], Data: hx.Hex([]byte{byte(len(ops) + 1)})}
+						nd := dts
+						nd[tr] += uint64(d)
+						rec(append(ops, op), nd)
+					}
+				}
+			}
+		}
+	}
+	rec(nil, [3]uint64{0, 1000, 5000})
+}
+
+func cmdSearch(seed uint64, n int, exh int) {
 	r := hx.NewRng(mixSeed(seed, 0x5ea7c4))
 	evals := 0
 	seen := map[string]bool{}
@@ -1019,6 +1055,12 @@ func cmdSearch(seed uint64, n int) {
 			report(sg, f)
 		}
 	}
+	genExh(exh, func(sg *Seg) {
+		evals++
+		if f := checkSeg(sg); f != nil {
+			report(sg, f)
+		}
+	})
 	for i := 0; i < n; i++ {
 		sg := genSeg(r, false)
 		evals++
@@ -1354,7 +1396,7 @@ func emitH(id string, sg *Seg, sr *segRun, i int, stats map[string]int) {
 	fmt.Fprintf(out, "H\t%s\t%s\t%s\t%s\n", id, cfg, opss, sb.String())
 }
 
-func cmdCorr(seed uint64, n int) {
+func cmdCorr(seed uint64, n int, exh int) {
 	stats := map[string]int{}
 	cmdCorrO(hx.NewRng(mixSeed(seed, 0xc05)), n, stats)
 	r := hx.NewRng(mixSeed(seed, 0xc05c05))
@@ -1365,6 +1407,13 @@ func cmdCorr(seed uint64, n int) {
 			emitH(fmt.Sprintf("h%d.%d", i, k), sg, sr, k, stats)
 		}
 	}
+	ne := 0
+	genExh(exh, func(sg *Seg) {
+		sr := runSeg(sg)
+		emitH(fmt.Sprintf("x%d", ne), sg, sr, 0, stats)
+		ne++
+	})
+	stats["H.exhaustive"] = ne
 	keys := make([]string, 0, len(stats))
 	for k := range stats {
 		keys = append(keys, k)
@@ -1385,12 +1434,13 @@ func main() {
 	seed := fs.Uint64("seed", 0, "seed")
 	n := fs.Int("n", 1000, "cases")
 	w := fs.String("w", "", "witness (json)")
+	exh := fs.Int("exh", 2, "exhaustive history length")
 	_ = fs.Parse(os.Args[2:])
 	switch os.Args[1] {
 	case "corr":
-		cmdCorr(*seed, *n)
+		cmdCorr(*seed, *n, *exh)
 	case "search":
-		cmdSearch(*seed, *n)
+		cmdSearch(*seed, *n, *exh)
 	case "replay":
 		cmdReplay(*w)
 	default:
